@@ -1,6 +1,8 @@
 """C05 - emitting then parsing returns the same events (error-class, state-machine and agreement clauses)."""
 import sys
 
+from sa import crosslist as XL
+from sa import rules_r6b as R6B
 from sa import rules_r6 as R6
 from sa import report, partial as P, rules_read as RD, rules_emit as RE
 from sa import rules_extra as RX, rules_opts as RO
@@ -60,6 +62,9 @@ def run(ctx, repo):
     ctx.call(R6.r_tag_directive_every_handle, repo)
     ctx.call(RX.r_analyze_special, repo)
     ctx.call(RO.r_option_normalised, repo)
+    ctx.call(R6B.r_flow_plain_agree, repo)
+    ctx.call(RX.r_simple_key_fits, repo)
+    XL.emit_readable(ctx, repo)
 
 
 if __name__ == '__main__':
